@@ -267,6 +267,9 @@ func flatten(c Cond) []Cond {
 	return []Cond{c}
 }
 
+// RawInstrConds: the dominating branch conditions themselves, without what they imply through helpers and flags.
+func RawInstrConds(in ssa.Instruction) []Cond { return rawBlockConds(in.Block()) }
+
 // InstrConds = BlockConds of the instruction's block.
 func InstrConds(in ssa.Instruction) []Cond { return BlockConds(in.Block()) }
 
